@@ -3,7 +3,7 @@ CONSTANTS
   TMin = 0
   TMax = 15
   Pts <- PtsU4t
-  MaxLen = 3
+  MaxLen = 2
   FixTrunc = TRUE
   FixGuard = TRUE
   FixOct0 = TRUE
@@ -11,10 +11,10 @@ CONSTANTS
   FixUncl = TRUE
   FixCase = TRUE
   FixItems = TRUE
-  ItemsOnce = FALSE
+  ItemsOnce = TRUE
   Lenient <- LenNone
-  WithLex = TRUE
+  WithLex = FALSE
   Emit = FALSE
-  WithBad = TRUE
+  WithBad = FALSE
 CHECK_DEADLOCK FALSE
 INVARIANT ImplEqualsClaims
